@@ -206,4 +206,63 @@ theorem paramMap_of_nodup (ps : Params) (hd : (ps.map (·.1)).Nodup) : paramMap 
   rw [paramMap_foldl ps [] hd (by intro _ _ a ha; cases ha)]
   simp
 
+theorem lookup_filter_ne (acc : Params) (k k' : String) (h : k ≠ k') :
+    (acc.filter (·.1 != k')).lookup k = acc.lookup k := by
+  induction acc with
+  | nil => rfl
+  | cons a tl ih =>
+    obtain ⟨a1, a2⟩ := a
+    by_cases e : a1 = k'
+    · subst e
+      have h1 : (k == a1) = false := by simpa using h
+      simp [List.filter_cons, List.lookup, h1, ih]
+    · have : ((a1, a2).1 != k') = true := by simpa using e
+      rw [List.filter_cons, if_pos this]
+      simp only [List.lookup, ih]
+
+theorem lookup_append' (l1 l2 : Params) (k : String) :
+    (l1 ++ l2).lookup k = match l1.lookup k with | some v => some v | none => l2.lookup k := by
+  induction l1 with
+  | nil => rfl
+  | cons a tl ih =>
+    obtain ⟨a1, a2⟩ := a
+    simp only [List.cons_append, List.lookup]
+    split <;> simp_all
+
+theorem paramMap_lookup_aux (ps acc : Params) (k : String) :
+    (ps.foldl (fun m kv => (m.filter (·.1 != kv.1)) ++ [kv]) acc).lookup k
+      = match ps.reverse.lookup k with | some v => some v | none => acc.lookup k := by
+  induction ps generalizing acc with
+  | nil => simp [List.lookup]
+  | cons kv rest ih =>
+    obtain ⟨k1, v1⟩ := kv
+    simp only [List.foldl_cons, ih, List.reverse_cons, lookup_append']
+    cases hr : rest.reverse.lookup k with
+    | some v => rfl
+    | none =>
+      by_cases e : k = k1
+      · subst e
+        have : (acc.filter (·.1 != k)).lookup k = none := by
+          induction acc with
+          | nil => rfl
+          | cons a tl ih2 =>
+            by_cases e2 : a.1 = k
+            · simp [List.filter_cons, e2, ih2]
+            · have h3 : (a.1 != k) = true := by simpa using e2
+              have h4 : (k == a.1) = false := by simpa using fun x => e2 x.symm
+              rw [List.filter_cons, if_pos h3]
+              obtain ⟨a1, a2⟩ := a
+              simp only at h4
+              simp [List.lookup, h4, ih2]
+        simp [this, List.lookup]
+      · have h1 : (k == k1) = false := by simpa using e
+        simp [lookup_filter_ne acc k k1 e, List.lookup, h1]
+        cases List.lookup k acc <;> rfl
+
+/-- a later `addParam` overwrites: the map holds, for every name, the value of the *last* call. -/
+theorem paramMap_lookup (ps : Params) (k : String) : (paramMap ps).lookup k = ps.reverse.lookup k := by
+  unfold paramMap
+  rw [paramMap_lookup_aux]
+  cases ps.reverse.lookup k <;> simp [List.lookup]
+
 end GoZero.C09
